@@ -178,6 +178,17 @@ const SCRIPT_BODIES: &[&str] = &[
     "x = '<!--'; y = '-->';",
     "let é = '→';",
 ];
+/// Script texts in which "</script" occurs only inside a double-escaped section (`<!--` ... `<script` + delimiter ...
+/// `</script` + delimiter ... `-->`): per the HTML tokenization rules the inner end tag does not end the element, so
+/// the text is the element's whole content (legacy ad snippets look like this).  Other `<` + letter sequences inside
+/// the escaped section do not leave it.
+const DOUBLE_ESCAPE_BODIES: &[&str] = &[
+    "<!--<script>x</script>-->",
+    "<!-- document.write('<div><script src=a.js></script></div>'); //-->",
+    "<!--\nif (i<n) { w('<a href=x><script>y()</script ></a>'); }\n-->",
+    "<!-- <b> <SCRIPT >z</SCRIPT/> </b> -->",
+    "a(); <!-- <p><span><script\n>1</script\n></span> --> b();",
+];
 const STYLE_BODIES: &[&str] = &["body{color:red}", "a>b{c:d} /* </div> */", "p::before{content:'<'}", "", ".x{background:url(a.png)}"];
 const TEXTAREA_BODIES: &[&str] = &["<b>not bold</b>", "plain", "</body>", "a < b", ""];
 
@@ -381,6 +392,7 @@ fn gen_raw_elem(rng: &mut Rng, o: &GenOpts, tag: &str) -> Elem {
     } else {
         body
     };
+    let body = if tag == "script" && rng.chance(1, 5) { rng.pick_str(DOUBLE_ESCAPE_BODIES) } else { body };
     let (st, end) = case_tag(rng, o, tag);
     Elem {
         tag: st,
